@@ -349,7 +349,9 @@ impl ConsumeUnverifiedBlockProcessor {
             );
 
             db_txn.insert_tip_header(&block.header())?;
-            if new_epoch || fork.has_detached() {
+            // more than one attached block may cross an epoch boundary even when the new tip does not
+            // open an epoch and nothing is detached (stored descendants of the tip, e.g. after a truncate)
+            if new_epoch || fork.has_detached() || fork.attached_blocks().len() > 1 {
                 db_txn.insert_current_epoch_ext(&epoch)?;
             }
         } else {
